@@ -122,7 +122,7 @@ class C16(PropBase):
         "alias, Final, ClassVar, ForwardRef}); it is non-trivial when at least one key was stored before it and it is a lookup "
         "through a wrapper/reference or follows a fired fault (predicate memos cleared, typing caches cleared, a ForwardRef "
         "evaluated); distinct = distinct (operation, sorted stored-key set) pairs. Each observation is compared with the "
-        "write-once reference model."
+        "write-once reference model, and with the same lookup in a context that holds the same entries and has never been read."
     )
     ASSUMPTIONS = ["internal memoisation of alias keys (keys(), len) is deliberately not observed",
                    "sequences are sampled (quick: length <= 12 biased to <= 6, thorough: <= 40), not enumerated"]
@@ -177,6 +177,7 @@ class C16(PropBase):
         sess.ctxs = {}
         sess.models = {}
         sess.stored_objs = {}
+        sess.store_log = {}
 
     def _ctx(self, sess, c):
         from typelib import ctx
@@ -217,12 +218,23 @@ class C16(PropBase):
             out = sess.guarded(sess.call, step, do)
             m.store[mkey(**step["key"])] = step["val"]
             sess.stored_objs[step["ctx"]][mkey(**step["key"])] = kobj
+            sess.store_log.setdefault(step["ctx"], []).append((kobj, step["val"]))
             return out
+        # the same lookup in a context that holds the same entries and has never been read:
+        # "a lookup never changes the result of any later lookup"
+        from typelib import ctx as _ctx_mod
+
+        fresh = _ctx_mod.TypeContext()
+        for fk, fv in sess.store_log.get(step["ctx"], ()):
+            fresh[fk] = fv
         if op == "ctx_getitem":
+            sess._c16_fresh = sess.guarded(sess.call, step, lambda: fresh[kobj])
             return sess.guarded(sess.call, step, lambda: c[kobj])
         if op == "ctx_get":
+            sess._c16_fresh = sess.guarded(sess.call, step, lambda: fresh.get(kobj, step["default"]))
             return sess.guarded(sess.call, step, lambda: c.get(kobj, step["default"]))
         if op == "ctx_in":
+            sess._c16_fresh = sess.guarded(sess.call, step, lambda: kobj in fresh)
             return sess.guarded(sess.call, step, lambda: kobj in c)
         return None
 
@@ -246,6 +258,11 @@ class C16(PropBase):
         if op == "ctx_set":
             if not out.ok:
                 sess.violation("insert-raised", i, {"exc": type(out.exc).__name__, "key": step["key"]}, sig=f"insert-raised:{step['key']['w']}")
+            return
+        fr = sess._c16_fresh
+        if (fr.ok, fr.value if fr.ok else type(fr.exc).__name__) != (out.ok, out.value if out.ok else type(out.exc).__name__):
+            sess.violation("lookup-changed-by-earlier-lookups", i, {"key": step["key"], "op": op, "here": repr(out)[:120], "never_read_context": repr(fr)[:120], "stored": stored},
+                           sig=_sig("history", step, m))
             return
         found, val = m.lookup(k)
         # ambiguous reading of the statement ("a forward reference naming it"): a value stored
